@@ -25,6 +25,11 @@ EXTENDS Integers, Sequences, FiniteSets
 EQ == 61   \* '='
 Missing == <<"missing">>
 Ok(v) == <<"ok", v>>
+NotUnicode == <<"notunicode">>
+\* var hands out a &str: the value of the FIRST matching entry converted; in the model a value is UTF-8 iff it is ASCII
+\* (the bounded domains use 255 as the one non-UTF-8 byte)
+AsciiV(v) == \A i \in 1..Len(v) : v[i] < 128
+Conv(x) == IF x = Missing THEN Missing ELSE IF AsciiV(x[2]) THEN x ELSE NotUnicode
 
 \* ------------------------------------------------------------------------------------------
 \* property level
@@ -245,7 +250,8 @@ Matched ==
        THEN /\ rdb' = {st[envp + off] + it} \cup
                       (IF EntryAt(it + 1) = EQ THEN (st[envp + off] + it + 1)..CStrEnd(heap, st[envp + off]) ELSE {})
             /\ IF EntryAt(it + 1) = EQ
-               THEN /\ out' = Ok(CStr(heap, st[envp + off] + it + 1))
+               THEN /\ out' = IF fn = "var" THEN Conv(Ok(CStr(heap, st[envp + off] + it + 1)))     \* from_utf8(value).map_err(NotUnicode)
+                                         ELSE Ok(CStr(heap, st[envp + off] + it + 1))
                     /\ pc' = "done" /\ off' = off
                ELSE /\ out' = out /\ pc' = "var_entry" /\ off' = off + 1
        ELSE /\ rdb' = {}
@@ -271,7 +277,9 @@ BootCorrect ==
               /\ envp = EnvStart(st)
               /\ \A nm \in AuxNames : coll[nm] = Aux(st, AT[nm])
 ArgsCorrect == (pc = "done" /\ fn = "args_os") => out = Args(st, heap)
-LookupCorrect == (pc = "done" /\ fn \in {"var", "var_unix"}) => out \in LookupAdmissible(EnvBlock(st, heap), key)
+LookupCorrect ==
+    /\ (pc = "done" /\ fn = "var_unix") => out \in LookupAdmissible(EnvBlock(st, heap), key)
+    /\ (pc = "done" /\ fn = "var") => out \in {Conv(x) : x \in LookupAdmissible(EnvBlock(st, heap), key)}
 \* every load is inside the stack / inside a string including its terminator / inside the key buffer
 ReadsInBounds ==
     /\ \A w \in rdw : w \in 1..Len(st)
